@@ -49,10 +49,11 @@ const (
 	midCompleteFile
 	midMerge
 	midLimitMemory // LimitMemory: a pass-through stage that may wait
+	midWorkerErr   // MakeIWorker whose worker fails on some records (breakOnError=false: a warning, the record is dropped, the others go on)
 	nMids
 )
 
-var midNames = []string{"SortBatches", "Rebatch", "FilterEmpty", "MakeIWorker(tag)", "MakeIWorker(drop)", "MakeISliceWorker(drop)", "FilterOn", "FilterAnd", "IFragments", "Pipe(WorkerPipe,SliceWorkerPipe)", "CompleteFileIterator", "IMergeSequenceBatch", "LimitMemory"}
+var midNames = []string{"SortBatches", "Rebatch", "FilterEmpty", "MakeIWorker(tag)", "MakeIWorker(drop)", "MakeISliceWorker(drop)", "FilterOn", "FilterAnd", "IFragments", "Pipe(WorkerPipe,SliceWorkerPipe)", "CompleteFileIterator", "IMergeSequenceBatch", "LimitMemory", "MakeIWorker(error on some records)"}
 
 const (
 	sinkCollect = iota
@@ -170,7 +171,7 @@ func drawIterPlan(t *simrt.Tape, thorough bool) iterPlan {
 			}
 			usedFrag = true
 		}
-		if p.Source == srcPair && (m.Kind == midWorkerDrop || m.Kind == midSliceDrop || m.Kind == midFragments || m.Kind == midMerge || m.Kind == midFilterOn) {
+		if p.Source == srcPair && (m.Kind == midWorkerDrop || m.Kind == midWorkerErr || m.Kind == midSliceDrop || m.Kind == midFragments || m.Kind == midMerge || m.Kind == midFilterOn) {
 			// keep mates in step: FilterAnd is the paired filter
 			m.Kind = midFilterAnd
 		}
@@ -344,7 +345,7 @@ func (m iterModel) apply(st midStage) iterModel {
 		}
 	case midLimitMemory:
 		// identity: same batches, same numbers, same arrival order
-	case midWorkerDrop, midSliceDrop:
+	case midWorkerDrop, midSliceDrop, midWorkerErr:
 		keep := keepPred(st.A)
 		m.ids = filterIDs(m.ids, keep)
 		if m.batches != nil {
@@ -546,6 +547,13 @@ func runIterPlan(rc *RunCtx, p iterPlan, hasMerge []bool) (SimResult, *iterOutpu
 						return obiseq.BioSequenceSlice{s}, nil
 					}
 					return obiseq.BioSequenceSlice{}, nil
+				}, false, nw)
+			case midWorkerErr:
+				it = it.MakeIWorker(func(s *obiseq.BioSequence) (obiseq.BioSequenceSlice, error) {
+					if pred(s) {
+						return obiseq.BioSequenceSlice{s}, nil
+					}
+					return nil, fmt.Errorf("record %s is refused by the worker", s.Id())
 				}, false, nw)
 			case midSliceDrop:
 				it = it.MakeISliceWorker(func(sl obiseq.BioSequenceSlice) (obiseq.BioSequenceSlice, error) {
@@ -880,7 +888,7 @@ func init() {
 		Random: func(tier string) int { return map[string]int{"quick": 4000, "thorough": 300000}[tier] },
 		Run:    runC03,
 		Level:  "exploration",
-		Rule:   "random compositions source > 0-4 stages > sink over the real combinators: sources inject (any partition incl. empty batches, any arrival permutation), IBatchOver, Pool and Concat of 2-3 streams (empty streams included), ReadSequencesBatchFromFiles with 1-3 concurrent readers, PairTo; stages SortBatches, Rebatch, FilterEmpty, MakeIWorker (tag / drop), MakeISliceWorker, FilterOn, FilterAnd, IFragments, Pipe/Pipeline, CompleteFileIterator, IMergeSequenceBatch, LimitMemory, each with 1-4 workers; sinks collect, DivideOn, Distribute (consumer per News key), Load, Count, peek+PushBack+Split consumers, PairedWith (the stream of the mates, by batch number), CopyTee (two consumers); dense yields in obiiter; oracle = list model of every combinator (exactly-once, order when order-preserving, batch numbers 0..m-1, termination). distinct = distinct (set and order of combinators, schedule signature); non-trivial = at least one step with >=2 runnable tasks",
+		Rule:   "random compositions source > 0-4 stages > sink over the real combinators: sources inject (any partition incl. empty batches, any arrival permutation), IBatchOver, Pool and Concat of 2-3 streams (empty streams included), ReadSequencesBatchFromFiles with 1-3 concurrent readers, PairTo; stages SortBatches, Rebatch, FilterEmpty, MakeIWorker (tag / drop / error on some records), MakeISliceWorker, FilterOn, FilterAnd, IFragments, Pipe/Pipeline, CompleteFileIterator, IMergeSequenceBatch, LimitMemory, each with 1-4 workers; sinks collect, DivideOn, Distribute (consumer per News key), Load, Count, peek+PushBack+Split consumers, PairedWith (the stream of the mates, by batch number), CopyTee (two consumers); dense yields in obiiter; oracle = list model of every combinator (exactly-once, order when order-preserving, batch numbers 0..m-1, termination). distinct = distinct (set and order of combinators, schedule signature); non-trivial = at least one step with >=2 runnable tasks",
 		Real:   []string{"every obiiter combinator named in the rule", "obiformats.ReadSequencesBatchFromFiles", "obiseq workers, classifiers, Subsequence, Merge, pairing", "iterator termination protocol (Add/Done/WaitAndClose, RegisterAPipe/WaitForLastPipe)"},
 		Stub:   []string{"per-file readers of ReadSequencesBatchFromFiles (harness injectors)", "upstream producers (harness injector tasks)", "sync primitives and scheduler (simrt)"},
 	})
